@@ -232,6 +232,12 @@ theorem sn_prepVisit_eq (rules : List Rule) (root : Str) (fs : FS) (absPath : St
           exact tail (!isAbs t && isLocal (pathJoin (pathDir rel) t))
         | special => simp only [snIsDir, Bool.false_and, Bool.false_eq_true, if_false]; exact tail true
 
+/-- when the containment-and-kind check fails, the callback's verdict is `fail` whatever the lexical
+check says -/
+theorem sn_visit_tail_fail {fs : FS} {root rel : Str} {node : Node} (h : snCheck fs root rel = .fail) :
+    (if snLinkOK rel node then snCheck fs root rel else SRes.fail) = .fail := by
+  rw [h]; split <;> rfl
+
 /-- the callback either leaves the filesystem alone or removes the visited path -/
 theorem sn_prepVisit_fst_cases (rules : List Rule) (root : Str) (fs : FS) (absPath : Str) (node : Node) :
     (prepVisit rules root fs absPath node).1 = fs ∨
